@@ -104,9 +104,22 @@ class GenotypeModel:
             return p
 
         def dumped_profile():
+            """The profile a replay works with: the original run's profile (built with the same parameters), pickled, and
+            passed through the archive reader of /repo (Sample._load_dump folded whole: it resets some parameters)."""
             if sc.dump_profile is not None:
                 return sc.dump_profile
-            return pm.new("dumped", _GRr("22", 100, 110), {"dumped": True})
+            original = pm.new("dumped", _GRr("22", 100, 110), {"dumped": True}, **{k: v for k, v in sc.params.items()})
+            rd = self.repo.func("sam::Sample._load_dump")
+            me = Obj(gene=Obj(name="G"), profile=None, name=None, _dump_cn=None, _fusion_counter=None, _indel_sites=None, phases=None)
+            payload = ("SAMPLE", original, {}, {}, {}, [], {}, {})
+            io = {"gzip.open": lambda *a, **k: Obj(kind="gz"), "pickle.load": lambda fd: payload, "os.path.abspath": lambda q: q,
+                  "tarfile.open": lambda *a, **k: Obj(getnames=lambda: ["x.G.dump"], extractfile=lambda n: Obj(kind="member"))}
+            lift_module_helpers(self.repo.mod("sam").tree, io, None, {}, {})
+            try:
+                Lifted(rd, funcs=io)(me, "in.tar.gz")
+            except Raised:
+                return original
+            return me.profile if me.profile is not None else original
 
         def gene_ctor(path, genome=None):
             nm = "G" if "/" not in str(path) else str(path).rsplit("/", 1)[1].split(".")[0].upper()
